@@ -14,3 +14,4 @@ pub use crate::message::{
     blob_regex, find_subslice, msg_regex, replace_all_bytes, MessageReplacer, ShortHashMapper,
 };
 pub use crate::stream::verif::{rewrite_timestamp_line, strip_sha_lookup};
+pub use crate::sanity::verif::{freshly_packed, unpushed};
